@@ -1,3 +1,4 @@
+import os
 """Per-property configuration of the runner: Lean modules holding the property theorems, how the
 implementation output is projected onto what the specification predicts, what counts as a
 non-trivial case, and how a failing case is shrunk."""
@@ -280,10 +281,10 @@ PROPS = {
     'C01': _kan_props(['KVerif.Props.C01', 'KVerif.Props.C01q2'],
         'non-latching whole-grammar configurations (layers, tap-hold variants, tap-dance, one-shot variants, chords v1, macros, fork/switch, multi, release-key/layer, unmod, mouse wheel/move, virtual keys operated by tap/release only, hold-for-duration, on-idle) and balanced histories - every pressed key is released, incl. bursts of 40-120 events overflowing the 32-slot queue - followed by 3000 quiet ticks; plus 20 keys pressed at once with 12-key multis (> 64 states), tap-holds (> 8), one-shot layers (> 16), macros (> 4) and tap-dances; non-trivial = output changed at least twice; oracle on the real trace: nothing down at the OS at the end, nothing emitted during the last 500 ms, kanata reports idle',
         'C01o'),
-    'C07': _kan_props(['KVerif.Props.C07'],
+    'C07': _kan_props(['KVerif.Props.C07', 'KVerif.Props.C07reach'],
         'every kind of timeout pending when the loop asks whether it may block (tap-hold, one-shot incl. rapid-event-delay 0, tap-dance lazy/eager, chords, macros incl. repeat, caps-word, hold-for-duration, on-idle, mouse wheel/move, two tap-holds from one switch, key-timing switch conditions) with input gaps around each timeout, plus random whole-grammar configurations; every case is run twice on the real code in virtual time: under the processing loop that blocks whenever can_block_update_idle_waiting allows, and under the same loop that asks the same question but always ticks; non-trivial = output changed at least twice; oracle: both runs must emit the same OS events at the same virtual times (classified different-output / postponed / bounded-delay otherwise, with the model-side diagnosis of which component a tick would still change at the blocking point)',
         'C07o'),
-    'C18': _kan_props(['KVerif.Props.C18'],
+    'C18': _kan_props(['KVerif.Props.C18', 'KVerif.Props.C18multi'],
         'virtual keys with marker outputs (also a layer, a macro, a one-shot, a tap-hold as virtual key action) operated by on-press/on-release fake-key actions (press, release, tap, toggle), direct handle_fakekey_action calls, hold-for-duration with durations {1,2,3,5,10,50} x re-activation gaps {0,1,D-1,D,D+1,D+5} x 1-3 activations, on-idle actions under the virtual-time processing loop with idle durations {5,20,100} and typing that restarts the idle clock, plus random unsettled mixes; non-trivial = output changed at least twice; oracle on the implementation trace: settled operation sequences leave the virtual key held/up as press/release/tap/toggle prescribe, hold-for-duration releases no earlier than D after an activation and ends released, on-idle fires exactly once, not before D ms of idleness',
         'C18o'),
     'C14': _kan_props(['KVerif.Props.C14', 'KVerif.Props.C14link'],
@@ -835,7 +836,7 @@ def _c12_describe(case):
 
 
 PROPS['C12'] = {
-    'lean_modules': ['KVerif.Props.C12'],
+    'lean_modules': ['KVerif.Props.C12', 'KVerif.Props.C12mod'],
     'oracle_project': _c12_project,
     'nontrivial': _c12_nontrivial,
     'rule': 'Q: random key sets over a 5-symbol alphabet (incl. the overlap marker and the empty key) vs the real Trie; '
@@ -2148,3 +2149,26 @@ def _c19_os_stream(case, out):
 
 PROPS['C19']['determined'] = _c19_os_stream
 PROPS['C19']['determined_what'] = 'the key events sent to the OS at every step (typing while recording, and the replay)'
+
+
+_C12_EXPECT = None
+
+
+def _c12_free_oracle(case, impl):
+    """corpus cases for which the statement's requirement was written down by hand
+    (corpus/C12.expect.tsv: case line <TAB> required summary or `rej conflict`): the driver's own
+    specification works on encoded key lists, as the parser does, and says nothing where the
+    ambiguity only exists at the level of what is typed"""
+    global _C12_EXPECT
+    if _C12_EXPECT is None:
+        _C12_EXPECT = {}
+        f = os.path.join(os.path.dirname(os.path.dirname(os.path.abspath(__file__))), 'corpus', 'C12.expect.tsv')
+        if os.path.exists(f):
+            for l in open(f):
+                if '\t' in l:
+                    k, v = l.rstrip('\n').split('\t', 1)
+                    _C12_EXPECT[k] = v
+    return _C12_EXPECT.get(case.strip())
+
+
+PROPS['C12']['free_oracle'] = _c12_free_oracle
